@@ -1236,3 +1236,112 @@ for _mod in ("harness_create", "harness_recheck", "harness_rebuild", "harness_mi
         __import__("native." + _mod)
     except ImportError as _e:          # a missing module must not take the other properties down
         sys.stderr.write(f"harness module {_mod} not available: {_e}\n")
+
+
+# =============================================================================================== C14 (additional scenarios)
+def _c14x_case(acc, case):
+    """scenarios the enumerated scope of harness_rebuild does not contain: (a) a same-named candidate that is LONGER than recorded and
+    starts with the right bytes; (b) two releases of a torrent (same paths, longer files in the second) rebuilt into one destination"""
+    from torrentfile.rebuild import Assembler
+    pl = 16384
+    with tempdir() as d:
+        search, dest, metas = os.path.join(d, "search"), os.path.join(d, "dest"), os.path.join(d, "metas")
+        for x in (search, dest, metas):
+            os.makedirs(x)
+        version = case["version"]
+        if case["kind"] == "longer-prefix-decoy":
+            good = content(1, "track", case["size"])
+            tree = {"cover.bin": content(1, "cover", 700), "track.bin": good, "notes.txt": content(1, "notes", pl + 11)}
+            mf, _ = make_metafile(metas, "album", tree, version, pl=pl)
+            meta = ref.to_text(ref.bdecode(open(mf, "rb").read(), strict=False))
+            shutil.rmtree(os.path.join(metas, "album"))
+            sub = os.path.join(search, "a_first")
+            os.makedirs(sub)
+            for nm, data in tree.items():
+                if nm != "track.bin":
+                    open(os.path.join(sub, nm), "wb").write(data)
+            open(os.path.join(sub, "track.bin"), "wb").write(good + content(2, "appendix", case["extra"]))   # longer than recorded
+            before = snapshot(search)
+            with quiet():
+                try:
+                    Assembler([mf], [search], dest).assemble_torrents()
+                    Assembler([mf], [search], dest).assemble_torrents()
+                except BaseException as e:      # noqa: BLE001
+                    acc.fail("C14x:rebuild-raised", case, f"{type(e).__name__}: {e}")
+                    return
+            after = snapshot(search)
+            if before != after:
+                acc.fail("C14x:search-dir-altered", case, snap_diff(before, after))
+            placed = os.path.join(dest, "album", "track.bin")
+            if os.path.exists(placed) and os.path.getsize(placed) != len(good):
+                acc.fail(f"C14x:v{version}:placed-file-with-wrong-length", case,
+                         f"album/track.bin placed with {os.path.getsize(placed)} bytes, metafile records {len(good)}", "nothing placed, or the recorded length")
+        else:
+            old_tree = {"data.bin": content(3, "v1", case["size"]), "readme": content(3, "r", 100)}
+            new_tree = {"data.bin": content(3, "v1", case["size"]) + content(4, "more", case["extra"]), "readme": content(3, "r", 100)}
+            s1, s2 = os.path.join(search, "v1"), os.path.join(search, "v2")
+            os.makedirs(s1)
+            os.makedirs(s2)
+            mf1, _ = make_metafile(s1, "pack", old_tree, version, pl=pl)
+            mf2, _ = make_metafile(s2, "pack", new_tree, version, pl=pl)
+            m1, m2 = os.path.join(metas, "one.torrent"), os.path.join(metas, "two.torrent")
+            os.replace(mf1, m1)
+            os.replace(mf2, m2)
+            before = snapshot(search)
+            with quiet():
+                try:
+                    Assembler([m1], [s1], dest).assemble_torrents()
+                    Assembler([m2], [s2], dest).assemble_torrents()
+                except BaseException as e:      # noqa: BLE001
+                    acc.fail("C14x:rebuild-raised", case, f"{type(e).__name__}: {e}")
+                    return
+            after = snapshot(search)
+            if before != after:
+                added, removed, changed = snap_diff(before, after)
+                acc.fail(f"C14x:v{version}:search-file-altered-by-second-rebuild", case, f"changed {changed} added {added} removed {removed}",
+                         "search directories untouched")
+
+
+@harness("C14x")
+def h_c14x(tier, seed, hints):
+    acc = Acc("C14", "", "")
+    for case in _c14x_cases(tier):
+        _c14x_case(acc, case)
+        acc.case(json.dumps(case, sort_keys=True), case)
+    return acc.result()
+
+
+def _c14x_cases(tier):
+    out = []
+    for version in (1, 2, 3):
+        for size, extra in ((100000, 4096), (3 * 16384, 1), (2 * 16384 + 5, 16384)):
+            out.append({"prop": "C14", "kind": "longer-prefix-decoy", "version": version, "size": size, "extra": extra})
+            out.append({"prop": "C14", "kind": "two-releases", "version": version, "size": size, "extra": extra})
+    return out
+
+
+_h_c14_base = HARNESS.get("C14")
+_r_c14_base = REPLAY.get("C14")
+
+
+@harness("C14")
+def h_c14_all(tier, seed, hints):
+    res = _h_c14_base(tier, seed, hints) if _h_c14_base else Acc("C14", "", "").result()
+    acc = Acc("C14", "", "")
+    for case in _c14x_cases(tier):
+        _c14x_case(acc, case)
+        acc.case(json.dumps(case, sort_keys=True), case)
+    extra = acc.result()
+    res["cases"] += extra["cases"]
+    res["distinct_nontrivial"] += extra["distinct_nontrivial"]
+    res["failures"] += extra["failures"]
+    res["rule"] = (res.get("rule") or "") + "; plus longer-than-recorded prefix decoys and two releases rebuilt into one destination"
+    return res
+
+
+@replayer("C14")
+def r_c14_all(acc, case):
+    if case.get("kind") in ("longer-prefix-decoy", "two-releases"):
+        _c14x_case(acc, case)
+    elif _r_c14_base:
+        _r_c14_base(acc, case)
